@@ -3,6 +3,7 @@ package props
 import (
 	"fmt"
 	"go/token"
+	"go/types"
 	"strings"
 
 	"golang.org/x/tools/go/ssa"
@@ -40,17 +41,58 @@ func c09(r *core.Run) {
 	r.Rule("S7", "reconnect re-announces: the reconnect handler calls ResetAll and is installed unconditionally by both Serve entry points (only the *nats.Conn type test may guard it)", 3)
 
 	root := p.FuncsOfPkg("")
-	resF := core.Field{Struct: "Service", Name: "resetResources"}
-	accF := core.Field{Struct: "Service", Name: "resetAccess"}
-	sub := subscribeFn(p)
+	// anchors by role: the two lists are the fields the exported setter stores its arguments
+	// into; the defaulting function is their only other writer; reset is the callee of ResetAll
+	// that receives both lists; subscribe is the Service method that reads a list and (with its
+	// private helpers) subscribes on the connection
+	resF, ok1 := setterField(p, "", "Service", "SetOwnedResources", 0)
+	accF, ok2 := setterField(p, "", "Service", "SetOwnedResources", 1)
 	resetAll := methodNamed(p, "", "Service", "ResetAll")
-	deflt := methodNamed(p, "", "Service", "setDefaultOwnership")
-	resetFn := methodNamed(p, "", "Service", "reset")
-	if sub == nil || resetAll == nil || deflt == nil || resetFn == nil {
-		r.Unres("S1", "subscribe/ResetAll/setDefaultOwnership/reset", "missing")
+	if !ok1 || !ok2 || resetAll == nil {
+		r.Unres("S1", "SetOwnedResources/ResetAll", "cannot resolve the ownership list fields from the exported setter")
 		return
 	}
-
+	isList := func(f core.Field) bool { return f == resF || f == accF }
+	var deflt, resetFn, sub *ssa.Function
+	for _, ac := range core.FieldAccesses(root, isList) {
+		o := core.Outermost(ac.Fn)
+		if ac.Write && o.Name() != "SetOwnedResources" {
+			for p.IsPrivateHelper(o) && len(p.CallersOf(o)) == 1 && core.Outermost(p.CallersOf(o)[0].Parent()).Name() != "ResetAll" && !hasSubscribeInvoke(p, core.Outermost(p.CallersOf(o)[0].Parent())) {
+				o = core.Outermost(p.CallersOf(o)[0].Parent())
+			}
+			deflt = o
+		}
+	}
+	for _, c := range core.Calls(resetAll) {
+		if cal := c.Common().StaticCallee(); cal != nil && len(c.Common().Args) >= 3 {
+			n := 0
+			for _, a := range c.Common().Args {
+				if f, ok := core.LoadedField(a); ok && isList(f) {
+					n++
+				}
+			}
+			if n == 2 {
+				resetFn = cal
+			}
+		}
+	}
+	for _, fn := range methodsOf(p, "", "Service") {
+		if fn == resetAll || fn == deflt || !hasSubscribeInvoke(p, fn) {
+			continue
+		}
+		for _, ac := range core.FieldAccesses([]*ssa.Function{fn}, isList) {
+			if !ac.Write {
+				sub = fn
+			}
+		}
+	}
+	if sub == nil {
+		sub = subscribeFn(p)
+	}
+	if sub == nil || deflt == nil || resetFn == nil {
+		r.Unres("S1", "subscribe/defaulting/reset", "cannot resolve the subscribing method, the defaulting function or reset")
+		return
+	}
 	// ---- S1 --------------------------------------------------------------
 	writers, readers := map[string]bool{}, map[string]bool{}
 	for _, ac := range core.FieldAccesses(root, func(f core.Field) bool { return f == resF || f == accF }) {
@@ -158,9 +200,18 @@ func c09(r *core.Run) {
 			if s, ok := core.ConstString(bo.Y); ok && s == ".*" {
 				g := false
 				for _, ed := range dominatingEdges(bo) {
-					if c2, ok := ed.If.Cond.(*ssa.BinOp); ok {
-						if k, ok := core.ConstInt(c2.Y); ok && k == '>' && ((c2.Op == token.NEQ && ed.Succ == 0) || (c2.Op == token.EQL && ed.Succ == 1)) {
+					cnd, succ := ed.Norm()
+					if c2, ok := cnd.(*ssa.BinOp); ok {
+						if k, ok := core.ConstInt(c2.Y); ok && k == '>' && ((c2.Op == token.NEQ && succ == 0) || (c2.Op == token.EQL && succ == 1)) {
 							g = true
+						}
+					}
+					// strings.HasSuffix(pattern, ">") is false
+					if c2, ok := cnd.(*ssa.Call); ok && succ == 1 {
+						if cal := c2.Common().StaticCallee(); cal != nil && cal.String() == "strings.HasSuffix" {
+							if sfx, ok := core.ConstString(c2.Common().Args[1]); ok && sfx == ">" {
+								g = true
+							}
 						}
 					}
 				}
@@ -170,21 +221,44 @@ func c09(r *core.Run) {
 	}
 
 	// ---- S3 / S4 -----------------------------------------------------------
-	inCh := core.Field{Struct: "Service", Name: "inCh"}
-	qg := core.Field{Struct: "Service", Name: "queueGroup"}
-	var subsCalls []ssa.CallInstruction
-	for _, c := range core.Calls(sub) {
-		if c.Common().IsInvoke() && (c.Common().Method.Name() == "ChanSubscribe" || c.Common().Method.Name() == "ChanQueueSubscribe") {
-			subsCalls = append(subsCalls, c)
+	inCh, okc := fieldByType(p, "", "Service", func(t types.Type) bool { _, ok := t.Underlying().(*types.Chan); return ok })
+	qg, okq := setterField(p, "", "Service", "SetQueueGroup", 0)
+	if !okc || !okq {
+		r.Unres("S3", "Service.<in-channel>/<queue-group>", "cannot resolve the in-channel (the chan field) or the queue group (stored by SetQueueGroup)")
+		return
+	}
+	// subscription invokes in subscribe and its private helpers, each with the call
+	// site(s) in subscribe through which it runs
+	type subSite struct {
+		inv  ssa.CallInstruction
+		site ssa.Instruction // in sub
+	}
+	var sites []subSite
+	for _, f2 := range p.Helpers(sub) {
+		for _, c := range core.Calls(f2) {
+			if c.Common().IsInvoke() && (c.Common().Method.Name() == "ChanSubscribe" || c.Common().Method.Name() == "ChanQueueSubscribe") {
+				for _, l := range p.Lift(c, sub) {
+					sites = append(sites, subSite{c, l})
+				}
+			}
 		}
 	}
+	mayMatch := mayExec(root, func(in ssa.Instruction) bool {
+		c, ok := in.(ssa.CallInstruction)
+		if !ok {
+			return false
+		}
+		cal := c.Common().StaticCallee()
+		return cal != nil && cal.Name() == "Matches" && cal.Signature.Recv() != nil && core.TypeName(cal.Signature.Recv().Type()) == "Pattern"
+	})
 	var matches []ssa.CallInstruction
 	for _, c := range core.Calls(sub) {
-		if cal := c.Common().StaticCallee(); cal != nil && cal.Name() == "Matches" {
+		if cal := c.Common().StaticCallee(); cal != nil && (mayMatch[cal] || (cal.Name() == "Matches" && cal.Signature.Recv() != nil && core.TypeName(cal.Signature.Recv().Type()) == "Pattern")) {
 			matches = append(matches, c)
 		}
 	}
-	for i, c := range subsCalls {
+	for i, ss := range sites {
+		c := ss.inv
 		args := c.Common().Args
 		isQ := c.Common().Method.Name() == "ChanQueueSubscribe"
 		chF, chok := core.LoadedField(args[len(args)-1])
@@ -204,43 +278,52 @@ func c09(r *core.Run) {
 			qArgOK = ok && f == qg
 		}
 		which := "resource-loop"
-		if strings.Contains(valDesc(args[0]), "access.") || subjectHasPrefix(args[0], "access.") {
-			which = "access-loop"
+		subjArgs := []ssa.Value{args[0]}
+		if sc, ok := ss.site.(ssa.CallInstruction); ok && ss.site != ssa.Instruction(c) {
+			subjArgs = sc.Common().Args
+		}
+		for _, sa := range subjArgs {
+			if strings.Contains(valDesc(sa), "access.") || subjectHasPrefix(sa, "access.") {
+				which = "access-loop"
+			}
 		}
 		r.Check(chok && chF == inCh && edgeOK && qArgOK, "S3", core.FuncName(sub), fmt.Sprintf("%s:%s#%d:in-channel+queue-variant", which, c.Common().Method.Name(), i), p.InstrPos(c),
 			"passes the in-channel; queue variant exactly when a queue group is set", fmt.Sprintf("subscription shape broken: inChannel=%v queueEdge=%v queueArg=%v", chok && chF == inCh, edgeOK, qArgOK))
 		// redundancy filter
-		lh := nearestLoopHead(sub, c.Block())
+		lh := nearestLoopHead(sub, ss.site.Block())
 		filtered := false
 		for _, m := range matches {
-			if lh != nil && (lh == m.Block() || lh.Dominates(m.Block())) && core.Reaches(m, c) {
+			if lh != nil && (lh == m.Block() || lh.Dominates(m.Block())) && core.Reaches(m, ss.site) {
 				filtered = true
 			}
 		}
 		if !isQ {
-			r.Check(filtered, "S3", core.FuncName(sub), which+":covered-patterns-skipped", p.InstrPos(c), "a pattern matched by another pattern of the list is not subscribed again", "the "+which+" subscribes every pattern without skipping those covered by another one: overlapping owned patterns are delivered more than once when no queue group is used")
+			r.Check(filtered, "S3", core.FuncName(sub), which+":covered-patterns-skipped", p.InstrPos(ss.site), "a pattern matched by another pattern of the list is not subscribed again", "the "+which+" subscribes every pattern without skipping those covered by another one: overlapping owned patterns are delivered more than once when no queue group is used")
 		}
-		// S4
+		// S4: the error travels from the invoke to subscribe's return
 		errRet := false
 		if c.Value() != nil && c.Value().Referrers() != nil {
 			for _, rf := range *c.Value().Referrers() {
 				if ex, ok := rf.(*ssa.Extract); ok && ex.Index == 1 {
-					errRet = errorReachesReturn(ex, sub)
+					errRet = errorReachesReturn(ex, c.Parent())
 				}
 			}
 		}
+		if errRet && ss.site != ssa.Instruction(c) {
+			sv, _ := ss.site.(ssa.Value)
+			errRet = sv != nil && errorReachesReturn(sv, sub)
+		}
 		r.Check(errRet, "S4", core.FuncName(sub), fmt.Sprintf("%s:%s#%d:error-returned", which, c.Common().Method.Name(), i), p.InstrPos(c), "a failed subscription aborts subscribe with its error", "a subscription error is dropped")
 	}
-	if serve := methodNamed(p, "", "Service", "serve"); serve != nil {
+	for _, sc := range callsTo(root, sub) {
+		serve := sc.Parent()
 		tested := false
-		for _, c := range callsTo([]*ssa.Function{serve}, sub) {
-			if c.Value().Referrers() != nil {
-				for _, rf := range *c.Value().Referrers() {
-					if bo, ok := rf.(*ssa.BinOp); ok && bo.Referrers() != nil {
-						for _, r2 := range *bo.Referrers() {
-							if _, ok := r2.(*ssa.If); ok {
-								tested = true
-							}
+		if sc.Value() != nil && sc.Value().Referrers() != nil {
+			for _, rf := range *sc.Value().Referrers() {
+				if bo, ok := rf.(*ssa.BinOp); ok && bo.Referrers() != nil {
+					for _, r2 := range *bo.Referrers() {
+						if _, ok := r2.(*ssa.If); ok {
+							tested = true
 						}
 					}
 				}
@@ -251,7 +334,7 @@ func c09(r *core.Run) {
 
 	// ---- S5 --------------------------------------------------------------
 	predFields := map[string]map[string]bool{}
-	for _, cl := range deflt.AnonFuncs {
+	for _, cl := range handlerPredicates(p, deflt) {
 		set := map[string]bool{}
 		for _, b := range cl.Blocks {
 			for _, in := range b.Instrs {
@@ -301,7 +384,11 @@ func c09(r *core.Run) {
 	r.OKTrivial("S5", core.FuncName(deflt), "access-predicate=={Access}", p.Pos(deflt.Pos()), fmt.Sprintf("predicates: %v", core.SortedKeys(predFields)))
 
 	// ---- S6 --------------------------------------------------------------
-	pathF := core.Field{Struct: "Mux", Name: "path"}
+	pathF, okp := accessorField(p, "", "Mux", "Path")
+	if !okp {
+		r.Unres("S6", "Mux.<path>", "cannot resolve the path field (returned by Mux.Path)")
+		return
+	}
 	for _, ac := range core.FieldAccesses(root, func(f core.Field) bool { return f == pathF }) {
 		if ac.Kind != "load" {
 			continue
@@ -343,9 +430,20 @@ func c09(r *core.Run) {
 	}
 
 	// ---- S7 --------------------------------------------------------------
-	hr := methodNamed(p, "", "Service", "handleReconnect")
+	// the reconnect handler: the Service method taking a *nats.Conn that calls ResetAll
+	var hr *ssa.Function
+	for _, m := range methodsOf(p, "", "Service") {
+		if len(m.Params) != 2 || !strings.HasSuffix(core.TypeName(m.Params[1].Type()), "nats.go.Conn") {
+			continue
+		}
+		for _, c := range core.Calls(m) {
+			if c.Common().StaticCallee() == resetAll {
+				hr = m
+			}
+		}
+	}
 	if hr == nil {
-		r.Unres("S7", "handleReconnect", "missing")
+		r.Unres("S7", "handleReconnect", "no Service method with a *nats.Conn parameter calls ResetAll")
 		return
 	}
 	callsRA := false
@@ -361,7 +459,7 @@ func c09(r *core.Run) {
 			return false
 		}
 		f, ok := mc.Fn.(*ssa.Function)
-		return ok && strings.HasPrefix(f.Name(), "handleReconnect")
+		return ok && boundMethod(f) == hr
 	}
 	for _, name := range []string{"Serve", "ListenAndServe"} {
 		fn := methodNamed(p, "", "Service", name)
@@ -370,28 +468,87 @@ func c09(r *core.Run) {
 			continue
 		}
 		found := false
-		for _, c := range core.Calls(fn) {
-			for _, a := range c.Common().Args {
-				if !isHR(a) {
-					continue
-				}
-				found = true
-				var conds []string
-				for _, ed := range dominatingEdges(c) {
-					d := describeCond(ed)
-					// allowed: the start CAS succeeded, the connection is a *nats.Conn
-					if strings.Contains(d, "CompareAndSwap") || isTypeAssertOK(ed) {
+		for _, f2 := range p.Helpers(fn) {
+			for _, c := range core.Calls(f2) {
+				for _, a := range c.Common().Args {
+					if !isHR(a) {
 						continue
 					}
-					conds = append(conds, d)
+					found = true
+					var conds []string
+					// conditions inside the helper and at the call sites in the entry point
+					eds := dominatingEdges(c)
+					if f2 != fn {
+						for _, l := range p.Lift(c, fn) {
+							eds = append(eds, dominatingEdges(l)...)
+						}
+					}
+					for _, ed := range eds {
+						d := describeCond(ed)
+						// allowed: the start CAS succeeded, the connection is a *nats.Conn
+						if strings.Contains(d, "CompareAndSwap") || isTypeAssertOK(ed) {
+							continue
+						}
+						conds = append(conds, d)
+					}
+					r.Check(len(conds) == 0, "S7", core.FuncName(fn), "installs-reconnect-handler-unconditionally", p.InstrPos(c), "the reconnect handler is installed whenever the connection supports it", "the reconnect handler is installed only if "+strings.Join(conds, " & ")+": otherwise a reconnect is never followed by system.reset")
 				}
-				r.Check(len(conds) == 0, "S7", core.FuncName(fn), "installs-reconnect-handler-unconditionally", p.InstrPos(c), "the reconnect handler is installed whenever the connection supports it", "the reconnect handler is installed only if "+strings.Join(conds, " & ")+": otherwise a reconnect is never followed by system.reset")
 			}
 		}
 		if !found {
 			r.Bad("S7", core.FuncName(fn), "installs-reconnect-handler-unconditionally", p.Pos(fn.Pos()), "the reconnect handler is never installed")
 		}
 	}
+}
+
+// hasSubscribeInvoke: fn or one of its private helpers subscribes on the connection.
+func hasSubscribeInvoke(p *core.Prog, fn *ssa.Function) bool {
+	for _, f2 := range p.Helpers(fn) {
+		for _, c := range core.Calls(f2) {
+			if c.Common().IsInvoke() && (c.Common().Method.Name() == "ChanSubscribe" || c.Common().Method.Name() == "ChanQueueSubscribe") {
+				return true
+			}
+		}
+	}
+	return false
+}
+
+// handlerPredicates: the func(Handler) bool values (closures or declared
+// functions) used by the defaulting function and its private helpers.
+func handlerPredicates(p *core.Prog, deflt *ssa.Function) []*ssa.Function {
+	isPred := func(f *ssa.Function) bool {
+		sg := f.Signature
+		if sg.Params().Len() != 1 || sg.Results().Len() != 1 {
+			return false
+		}
+		return core.TypeName(sg.Params().At(0).Type()) == "Handler" && types.TypeString(sg.Results().At(0).Type(), nil) == "bool"
+	}
+	seen := map[*ssa.Function]bool{}
+	var out []*ssa.Function
+	add := func(f *ssa.Function) {
+		if f != nil && !seen[f] && isPred(f) {
+			seen[f] = true
+			out = append(out, f)
+		}
+	}
+	for _, f2 := range p.Helpers(deflt) {
+		for _, cl := range f2.AnonFuncs {
+			add(cl)
+		}
+		for _, b := range f2.Blocks {
+			for _, in := range b.Instrs {
+				for _, op := range in.Operands(nil) {
+					if op == nil || *op == nil {
+						continue
+					}
+					if f, ok := core.Strip(*op).(*ssa.Function); ok {
+						add(f)
+					}
+				}
+			}
+		}
+	}
+	return out
 }
 
 func isTypeAssertOK(e edgeCond) bool {
@@ -444,6 +601,10 @@ func errorReachesReturn(ex ssa.Value, fn *ssa.Function) bool {
 			return false
 		}
 		for _, rf := range *v.Referrers() {
+			// returned as it is (the caller tests it)
+			if ret, ok := rf.(*ssa.Return); ok && ret.Parent() == fn {
+				return true
+			}
 			if bo, ok := rf.(*ssa.BinOp); ok && bo.Op == token.NEQ && bo.Referrers() != nil {
 				for _, r2 := range *bo.Referrers() {
 					if iff, ok := r2.(*ssa.If); ok {
